@@ -320,7 +320,13 @@ impl Sim {
             }
         }
         if bad == "udpcksum" {
-            f[14 + 20 + 6] ^= 0x55;
+            // a wrong, non-zero checksum (0 would mean "no checksum" for UDP over IPv4)
+            let o = 14 + 20 + 6;
+            let mut c = u16::from_be_bytes([f[o], f[o + 1]]) ^ 0x5555;
+            if c == 0 {
+                c = 0x00ff;
+            }
+            f[o..o + 2].copy_from_slice(&c.to_be_bytes());
         }
         if bad == "ipcksum" {
             f[14 + 10] ^= 0x55;
